@@ -71,6 +71,43 @@ void h_find(void)
     VF_ASSERT(cstl_heap_find(&h, (unsigned int)vf_w_id) == NULL, "find: nothing is found in an empty tree, whatever the number");
     VF_END();
 }
+/* The descent itself, for EVERY level-order number id < 2^32 - 1 and every step j of it: the node with
+ * number id lies d = floor(log2(id + 1)) levels below the root, and step j (1..d) goes left or right
+ * as bit d - j of id + 1 says.  The tree is a recording structure: P[k] is "depth k, step j not yet
+ * taken" (both children lead on), at depth j - 1 the left child enters chain A and the right child
+ * chain B, which lead on in both directions.  j is arbitrary, so every step is checked; the loop has
+ * at most 32 iterations and is closed by unwinding.  (Seeded change C07-6 computes a wrong mask for
+ * numbers >= 513 only.) */
+static struct cstl_bintree_node vf_P[34], vf_A[34], vf_B[34];
+size_t vf_w_j;
+void h_find_path(void)
+{
+    struct cstl_heap h;
+    struct cstl_bintree_node * res;
+    unsigned int loc, d, k;
+    VF_IN_SIZE(id); VF_IN_SIZE(j);
+    VF_ASSUME(vf_w_id < UINT_MAX && vf_w_j >= 1 && vf_w_j <= 32);
+    for (k = 0; k < 33; k++) {
+        vf_P[k].l = vf_P[k].r = &vf_P[k + 1];
+        vf_A[k].l = vf_A[k].r = &vf_A[k + 1];
+        vf_B[k].l = vf_B[k].r = &vf_B[k + 1];
+    }
+    vf_P[vf_w_j - 1].l = &vf_A[vf_w_j];
+    vf_P[vf_w_j - 1].r = &vf_B[vf_w_j];
+    cstl_heap_init(&h, NULL, NULL, 0);
+    h.bt.root = &vf_P[0];
+    loc = (unsigned int)vf_w_id + 1;
+    for (d = 0, k = loc; k > 1; k >>= 1) { d++; }               /* d = floor(log2(loc)) */
+    res = cstl_heap_find(&h, (unsigned int)vf_w_id);
+    if (vf_w_j > d) {
+        VF_ASSERT(res == &vf_P[d], "find: the descent takes exactly floor(log2(id + 1)) steps");
+    } else if (((loc >> (d - (unsigned int)vf_w_j)) & 1u) == 0) {
+        VF_ASSERT(res == &vf_A[d], "find: step j goes LEFT when bit (depth - j) of id + 1 is 0, and the descent has the right length");
+    } else {
+        VF_ASSERT(res == &vf_B[d], "find: step j goes RIGHT when bit (depth - j) of id + 1 is 1, and the descent has the right length");
+    }
+    VF_END();
+}
 #endif
 
 /* ------------------------------------------------------------------ S: promote_child */
@@ -446,7 +483,7 @@ struct vf_harness vf_harnesses[] = {
 #if defined(VF_FLS)
     { "h_fls", h_fls },
 #elif defined(VF_FIND)
-    { "h_find", h_find },
+    { "h_find", h_find }, { "h_find_path", h_find_path },
 #elif defined(VF_STEP)
     { "h_step", h_step },
 #elif defined(VF_B) && VF_B == 1
